@@ -129,7 +129,7 @@ Case vf_generate() {
     c.addrs.push_back(a);
     c.tags.push_back(tg);
   }
-  c.m = mg::gen_msg(12, 300, 40);
+  c.m = mg::gen_msg(vf::chance(35) ? 64 : 12, 300, 40);   // also very long argument lists (a fixed-size fast path with a heap fallback would only show there)
   int na = vf::pick<int>(2, 6);
   for (int i = 0; i < na; i++) c.appmsgs.push_back(app_msg());
   c.tl_maxmsg = vf::oneof<int>({32, 64, 128});
